@@ -1,6 +1,7 @@
 mod common;
 mod fam_lit;
 mod fam_path;
+mod fam_race;
 mod fam_sync;
 mod pathmon;
 mod lit;
